@@ -344,7 +344,8 @@ Definition view_C10 (c : ctx) (items : list item) : view :=
   match x_input c, parts (x_input c) items with
   | (InFn h _ _ | InMod h _ _ _ _), Some (GFn _ tr _ | GMod _ _ _ _ tr _ _ _) =>
       match fn_opts c with
-      | Some o => let added := minus_attrs (t_attrs tr) (h_attrs h) in
+      | Some o => (* only async_trait / automock sub-attributes of the user are re-applied to the trait *)
+                  let added := minus_attrs (t_attrs tr) (filter is_trait_sub (h_attrs h)) in
                   decided (c10_ok o true added) (filter is_mock_attr added)
       | None => na
       end
